@@ -574,9 +574,59 @@ func (c *Ctx) checkCaseFold() {
 				}
 			}
 		}
+		// a table of the mapping over the whole byte domain, built once by the package initialiser:
+		// seq[i] = table[seq[i]]
+		if u, isU := st.Val.(*ssa.UnOp); isU && u.Op == token.MUL && !ok {
+			if tia, isIA := u.X.(*ssa.IndexAddr); isIA {
+				tab, _ := fr.resolve(tia.X)
+				if tab == nil {
+					tab = tia.X
+				}
+				if f := c.tabulatedFunc(tab); f != nil && f.Pkg != nil && f.Pkg.Pkg.Path() == "unicode" && f.Name() == lib {
+					if ku, isU := stripConv(tia.Index).(*ssa.UnOp); isU && ku.Op == token.MUL {
+						if kia, isIA := ku.X.(*ssa.IndexAddr); isIA && lc.canon(kia.X) == lc.canon(ia.X) && lc.of(kia.Index).equal(lc.of(ia.Index)) {
+							if b, isB := tia.Index.Type().Underlying().(*types.Basic); isB && b.Kind() == types.Uint8 {
+								ok = true
+							}
+						}
+					}
+				}
+			}
+		}
 		nLoops := loopDepthIP(st, fr)
+		// every index of every row: the column loop scans the whole row and stores on every
+		// iteration; the row is the element of a whole scan of the container's rows
+		scanCols, colHead := lc.fullScanLoopAt(fr.fn, ia.X, ia.Index, st.Block())
+		scanRows := false
+		if scanCols {
+			v, f := fr.resolveDeep(ia.X)
+			at := colHead
+			if f != fr {
+				for g := fr; g != nil && g != f; g = g.up {
+					at = g.site.Block()
+				}
+			}
+			// v = elem.sequence with elem = rows[k]
+			for hops := 0; hops < 3 && v != nil; hops++ {
+				_, fld, base := loadedField(v)
+				if base == nil || fld != "sequence" {
+					break
+				}
+				b, bf := f.resolveDeep(base)
+				for g := f; g != nil && g != bf; g = g.up {
+					at = g.site.Block()
+				}
+				if u, isU := b.(*ssa.UnOp); isU && u.Op == token.MUL {
+					if ria, isIA := u.X.(*ssa.IndexAddr); isIA {
+						scanRows = lcOf(bf.fn).fullScanAt(bf.fn, ria.X, ria.Index, at)
+					}
+				}
+				break
+			}
+		}
+		ok = ok && scanCols && scanRows
 		L.Check(ok && nLoops == 2, "case-fold", r.label, "seq[i] = unicode."+lib+"(seq[i])", c.P.Pos(st.Pos()), "stored at the index it was loaded from, inside the row loop and the column loop",
-			fmt.Sprintf("the stored value is not unicode.%s of the byte at the same row and index (ok=%v, enclosing loops=%d)", lib, ok, nLoops))
+			fmt.Sprintf("the stored value is not unicode.%s of the byte at the same row and index, or some index is skipped (mapping and index ok=%v, enclosing loops=%d, column loop scans the whole row=%v, row loop scans every row=%v)", lib, ok, nLoops, scanCols, scanRows))
 	}
 	L.Floor("case-fold", 2, "two functions")
 }
@@ -773,6 +823,19 @@ func (c *Ctx) checkUnalign() {
 			}
 			ok = old == gap && isNew && nw == "" && all && src
 			det = fmt.Sprintf("replaces %q by %q, all occurrences: %v, source is the row: %v", old, nw, all, src)
+		}
+		// a package-level strings.Replacer built once from the constant pair (GAP, "")
+		if f := cc.StaticCallee(); f != nil && f.Name() == "Replace" && f.Pkg != nil && f.Pkg.Pkg.Path() == "strings" && f.Signature.Recv() != nil && len(cc.Args) == 2 {
+			if pairs, isRep := c.replacerPairs(cc.Args[0]); isRep && len(pairs) == 2 {
+				src := false
+				if cv, isCv := cc.Args[1].(*ssa.Convert); isCv {
+					if _, f, base := loadedField(cv.X); base != nil && f == "sequence" {
+						src = true
+					}
+				}
+				ok = pairs[0] == gap && pairs[1] == "" && src
+				det = fmt.Sprintf("package-level replacer of %q by %q, source is the row: %v", pairs[0], pairs[1], src)
+			}
 		}
 	})
 	if !ok {
